@@ -191,7 +191,11 @@ func TestC18(t *testing.T) {
 		s.stop()
 		b.Close()
 	}
-	run.Require("liveness_cases", int64(len(stacks)*rep.Pick(10, 60)))
+	need := rep.Pick(10, 60)
+	if rep.Mode() == "race" {
+		need = rep.Pick(8, 25)
+	}
+	run.Require("liveness_cases", int64(len(stacks)*need))
 	run.Require("chunks_seen_before_next_was_sent", 200)
 	run.Require("stall_cases", int64(len(stacks)*2))
 	run.Require("abort_cases", int64(len(stacks)*3))
